@@ -154,7 +154,7 @@ func (un *Unit) execCall(fr *Frame, st *State, c *ssa.CallCommon, instr ssa.Inst
 			if pt, ok := fa.X.Type().Underlying().(*types.Pointer); ok {
 				if n := namedOf(pt.Elem()); n != nil && n.Obj().Pkg() != nil {
 					fname := pt.Elem().Underlying().(*types.Struct).Field(fa.Field).Name()
-					if fsName, ok := un.specs.FuncFields[n.Obj().Pkg().Name()+"."+n.Obj().Name()+"."+fname]; ok {
+					if fsName, ok := un.specs.FuncFields[pkgKey(n.Obj().Pkg())+"."+n.Obj().Name()+"."+fname]; ok {
 						fs := un.specs.FuncSpecs[fsName]
 						if fs == nil {
 							un.outside = "unknown funcspec " + fsName
@@ -231,11 +231,11 @@ func ifaceMethodKey(recvT types.Type, m *types.Func) (string, string) {
 	// declared interface of the method (handles embedded interfaces)
 	if sig, ok := m.Type().(*types.Signature); ok && sig.Recv() != nil {
 		if n, ok := types.Unalias(sig.Recv().Type()).(*types.Named); ok && n.Obj().Pkg() != nil {
-			return n.Obj().Pkg().Name() + "." + n.Obj().Name() + "." + m.Name(), n.Obj().Pkg().Path()
+			return pkgKey(n.Obj().Pkg()) + "." + n.Obj().Name() + "." + m.Name(), n.Obj().Pkg().Path()
 		}
 	}
 	if n, ok := types.Unalias(recvT).(*types.Named); ok && n.Obj().Pkg() != nil {
-		return n.Obj().Pkg().Name() + "." + n.Obj().Name() + "." + m.Name(), n.Obj().Pkg().Path()
+		return pkgKey(n.Obj().Pkg()) + "." + n.Obj().Name() + "." + m.Name(), n.Obj().Pkg().Path()
 	}
 	return "?." + m.Name(), ""
 }
@@ -254,7 +254,7 @@ func (un *Unit) lookupIface(recvT types.Type, m *types.Func) (*FuncContract, str
 	}
 	// try the static receiver type's own name (e.g. keyCacher.GetOrLoad when the method comes from an embedded interface)
 	if n, ok := types.Unalias(recvT).(*types.Named); ok && n.Obj().Pkg() != nil {
-		k2 := n.Obj().Pkg().Name() + "." + n.Obj().Name() + "." + m.Name()
+		k2 := pkgKey(n.Obj().Pkg()) + "." + n.Obj().Name() + "." + m.Name()
 		if fc, ok := un.specs.Ifaces[k2]; ok {
 			return fc, k2, n.Obj().Pkg().Path()
 		}
